@@ -95,11 +95,22 @@ class Work:
         open(self.path("sim.mod"), "w").write(mod)
         shutil.copy(os.path.join(SIM, "go.sum"), self.path("sim.sum"))
 
+    def overlay(self):
+        """sync.Pool replaced by a deterministic LIFO without race annotations (DESIGN 3.3)."""
+        ov = self.path("overlay.json")
+        if not os.path.exists(ov):
+            rc, goroot = sh(["go", "env", "GOROOT"], quiet=True)
+            dst = self.path("overlay-pool.go")
+            shutil.copy(os.path.join(SIM, "overlay", "pool.go.txt"), dst)
+            json.dump({"Replace": {os.path.join(goroot.strip(), "src", "sync", "pool.go"): dst}}, open(ov, "w"))
+        return ov
+
     def build(self, pkg, name, race=True):
         out = self.path(name)
-        cmd = ["go", "build"]
+        cmd = ["go", "build", "-overlay", self.overlay()]
         if race:
-            cmd.append("-race")
+            # no inlining: race reports name the function that really contains the access
+            cmd += ["-race", "-gcflags=all=-l"]
         cmd += ["-modfile=" + self.path("sim.mod"), "-o", out, pkg]
         sh(cmd, cwd=SIM, timeout=1800)
         return out
@@ -212,7 +223,7 @@ def has(o, rule, sig):
     return o is not None and any(v["rule"] == rule and v["signature"] == sig for v in o.get("violations", []))
 
 
-def minimise(work, binary, prop, tier, outcome, rule, sig, extra_args=None, env_extra=None, max_runs=400, max_s=40):
+def minimise(work, binary, prop, tier, outcome, rule, sig, extra_args=None, env_extra=None, max_runs=400, max_s=30):
     """Shrinks the tape's value list while the same (rule, signature) fails."""
     vals = [d["v"] for d in outcome["tape"]]
     t0 = time.time()
@@ -319,10 +330,11 @@ def known_match(ks, prop, rule, sig):
 
 
 def write_evidence(prop, tier, seed, level, coverage, assumptions, wall, nviol):
-    os.makedirs(os.path.join(VERIF, "evidence"), exist_ok=True)
+    evdir = os.environ.get("VERIF_EVIDENCE_DIR", os.path.join(VERIF, "evidence"))
+    os.makedirs(evdir, exist_ok=True)
     ev = {"property_id": prop, "tier": tier, "seed": seed, "level": level, "coverage": coverage,
           "assumptions": assumptions, "wall_s": round(wall, 2), "violations": nviol}
-    p = os.path.join(VERIF, "evidence", prop + ".json")
+    p = os.path.join(evdir, prop + ".json")
     tmp = p + ".tmp"
     json.dump(ev, open(tmp, "w"), indent=1, sort_keys=True)
     os.replace(tmp, p)
@@ -338,6 +350,7 @@ def triage(work, binary, prop, tier, outcomes, extra_args=None, env_extra=None, 
             groups.setdefault((v["rule"], v["signature"]), []).append((o, v))
     n_new = n_known = 0
     details = []
+    flaky = []
     for (rule, sig), items in groups.items():
         k = known_match(ks, prop, rule, sig)
         if k:
@@ -349,7 +362,7 @@ def triage(work, binary, prop, tier, outcomes, extra_args=None, env_extra=None, 
             raise Trouble("harness failure: %s" % items[0][1]["detail"][:3000])
         o, v = min(items, key=lambda it: len(it[0].get("tape") or []))
         mo, mruns = o, 0
-        if do_minimise and o.get("tape") and n_new < 4:
+        if do_minimise and o.get("tape") and n_new < 2:
             log("minimising %s/%s from %d draws ..." % (rule, sig, len(o["tape"])))
             mo, mruns = minimise(work, binary, prop, tier, o, rule, sig, extra_args, env_extra)
         # verify in a fresh process, strictly
@@ -362,7 +375,10 @@ def triage(work, binary, prop, tier, outcomes, extra_args=None, env_extra=None, 
             if has(ver, rule, sig) and not ver.get("diverged"):
                 mo, reproduced = o, True
         if not reproduced:
-            raise Trouble("violation %s/%s (seed %s) did not reproduce on replay: flaky harness, not a verdict\n%s" % (rule, sig, o.get("seed"), v["detail"][:2000]))
+            # not a verdict: remembered, and fatal (exit 2) only if nothing else was confirmed
+            flaky.append("violation %s/%s (seed %s) did not reproduce on replay\n%s" % (rule, sig, o.get("seed"), v["detail"][:1500]))
+            log("UNREPRODUCIBLE (not reported as a violation):", flaky[-1][:300])
+            continue
         mv = [x for x in ver["violations"] if x["rule"] == rule and (x["signature"] == sig or rule == "data_race")][0]
         if rule == "data_race":
             sig = mv["signature"]  # as seen by a fresh process
@@ -374,8 +390,9 @@ def triage(work, binary, prop, tier, outcomes, extra_args=None, env_extra=None, 
                 continue
             if any(d.get("signature") == sig and not d.get("known") for d in details):
                 continue  # same racing pair already reported
-        os.makedirs(os.path.join(VERIF, "replays"), exist_ok=True)
-        rp = os.path.join(VERIF, "replays", "%s-%s-%s.json" % (prop, mo["seed"], hashlib.sha1((rule + sig).encode()).hexdigest()[:8]))
+        rpdir = os.environ.get("VERIF_REPLAY_DIR", os.path.join(VERIF, "replays"))
+        os.makedirs(rpdir, exist_ok=True)
+        rp = os.path.join(rpdir, "%s-%s-%s.json" % (prop, mo["seed"], hashlib.sha1((rule + sig).encode()).hexdigest()[:8]))
         json.dump({"property": prop, "tier": tier, "rule": rule, "signature": sig, "detail": mv["detail"], "seed": mo["seed"],
                    "tree_hash": work.tree_hash, "digest": ver.get("digest"), "sample": ver.get("sample"), "args": extra_args,
                    "original_draws": len(o.get("tape") or []), "minimised_draws": len(mo["tape"]), "minimiser_runs": mruns,
@@ -384,6 +401,10 @@ def triage(work, binary, prop, tier, outcomes, extra_args=None, env_extra=None, 
         print("  rule=%s signature=%s seed=%s draws=%d->%d\n  %s" % (rule, sig, mo["seed"], len(o.get("tape") or []), len(mo["tape"]), mv["detail"][:1500].replace("\n", "\n  ")), flush=True)
         n_new += 1
         details.append({"rule": rule, "signature": sig, "known": False, "occurrences": len(items), "replay": rp})
+    if flaky and n_new == 0:
+        raise Trouble("flaky harness, not a verdict: " + flaky[0])
+    for f in flaky:
+        details.append({"unreproducible": f[:300]})
     return n_new, n_known, details
 
 
@@ -462,6 +483,17 @@ PROPS = {
                      "over simulated time with clock steps backwards and jumps; distinct = digest of recorded ids per hop + schedule hash",
                 assumptions=["'truncated to the limit' is accepted in bytes or in characters", "fresh = encoded from entropy handed out by SimRand to the same task while that request was in its middlewares, or produced by that node's custom ID function",
                              "adaptive sampling and percentages strictly between 0 and 100 are not constrained by the property and only exercised"]),
+    "C20": dict(engine="rt", pkg="./engines/rt", race=True, quick_runs=3000, thorough_runs=300000, quick_budget=150, thorough_budget=2400,
+                level="exploration",
+                rule="runtime half: one run = one of (a) 2-16 (thorough: up to 64) client tasks x 1-4 (thorough 1-10) requests (ok, catch-all, invalid, declared error, plain error, "
+                     "unknown route, truncated body; Accept json/xml/gob/absent) through SimNet against ONE mounted server assembled from goa's runtime helpers the way generated servers "
+                     "assemble them (shared decoder/encoder/ErrorEncoder closures, muxer, optional RequestID and ResolvePattern middlewares), scheduling points at every transport read/write "
+                     "and every rewritten sync operation; (b) StreamCanceler with 1-6 streams and a shutdown at a drawn point, its goroutine a task; (c) SkipResponseWriter with a scripted "
+                     "WriterTo, un-gated single driver. Oracles: no race report, echo (every response is the function of its own request: ids, tokens, request id, pattern, negotiated type, "
+                     "error name/message), no deadlock, all tasks finish. distinct = schedule hash; non-trivial = more than one task. The generated-server half runs in the gen engine.",
+                assumptions=["the race detector only sees the program's own happens-before edges (gates are raw syscalls, no inlining so reports name the accessing function)",
+                             "interleavings are explored at scheduling points only; what happens between two points is covered by the race detector, not by schedule search",
+                             "sync.Pool inside chi/net/http/fmt keeps its per-P behaviour (no overlay): it can add happens-before edges and so hide, never invent, a race"]),
 }
 
 
@@ -487,7 +519,8 @@ def check_rt(prop, tier, seed):
     feats, distinct, sched, steps, sim_s, samples = summarise(outcomes)
     wall = time.time() - t0
     cov = {
-        "evaluations": len(outcomes),
+        "evaluations": feats.pop("_evaluations", 0) or len(outcomes),
+        "runs": len(outcomes),
         "distinct_nontrivial": len(distinct),
         "rule": cfg["rule"],
         "samples": samples,
